@@ -59,12 +59,16 @@ Fixpoint muts (n : node) (v : val) {struct n} : list mutn :=
         match x, mk, mv with
         | VMap isnil kvs, Some kn, Some vn =>
           let nk0 := match node_skind kn with Some k => fresh_key k | None => VInt 7 end in
+          (* a bool-keyed map has two possible keys: take the one not in use, and no new key when both are *)
+          let has (k : val) := existsb (fun kv : val * val => val_eqb (match fst kv with VPtr (Some y) => y | y => y end) k) kvs in
+          let nk0 := match nk0 with VBool b => if has (VBool b) then VBool (negb b) else VBool b | _ => nk0 end in
+          let full := has nk0 in
           let nk := if n_ptr kn then VPtr (Some nk0) else nk0 in
           (match kvs with
            | [] => [("nilempty", [], VMap (negb isnil) [])]
-           | (k0, x0) :: rest => [("key-", [], VMap false rest); ("keyren", [], VMap false ((nk, x0) :: rest))]
+           | (k0, x0) :: rest => ("key-", [], VMap false rest) :: (if full then [] else [("keyren", [], VMap false ((nk, x0) :: rest))])
            end) ++
-          [("key+", [], VMap false (kvs ++ [(nk, zero_val vn)]))] ++
+          (if full then [] else [("key+", [], VMap false (kvs ++ [(nk, zero_val vn)]))]) ++
           (fix go (pre post : list (val * val)) : list mutn :=
              match post with
              | [] => []
